@@ -17,6 +17,9 @@ pub struct C15;
 /// cap on the crash point number; a start with one indexing thread performs
 /// about 110 mutations, one with eight threads about 520
 const NCAP: usize = 560;
+/// bounds of the two-crash histories (thorough): first and second crash point
+const DOUBLE_N1: usize = 130;
+const DOUBLE_N2: usize = 140;
 
 pub fn probes() -> Vec<String> {
     let mut v: Vec<String> = Vec::new();
@@ -291,7 +294,7 @@ impl Prop for C15 {
         120
     }
     fn rule(&self) -> String {
-        "prior directory states: absent; complete and current; written by another version (a foreign major version; the next patch version or a build suffix over an index with other content and the current data hash); written for other data (built by the real code through the asset seam); other hash; meta.json missing / empty / {} / [] / garbage / every proper prefix of the valid bytes / 18 well-formed JSON documents of the wrong shape or type (null, a number, a list, `version` a number / list / object, a numeric or null hash, a missing or duplicated key, keys in another case, extra fields, other whitespace and key order); index directory missing under a current meta.json; index directory without tantivy's own meta.json. Each prior state x two crash-free starts (family start). Crash enumeration (family crash): prior state x every crash point N = 1..N_max of the real start under the LD_PRELOAD shim (process SIGKILLed before its N-th file-system mutation; quick: absent, other-data, index-missing and index-without-tantivy-meta priors, every point; thorough: eight priors, every point, each write also torn after half and after all-but-one byte), then: meta.json current => index complete (opened independently with tantivy), then two crash-free starts that must answer the probe set exactly like Db::in_memory(). Thorough adds second crashes (15 representative points) on every 10th first-level crash state. Non-trivial = the start performed at least one mutation before it was killed / a prior state other than `current`; distinct = distinct (prior, N, torn)".into()
+        "prior directory states: absent; complete and current; written by another version (a foreign major version; the next patch version or a build suffix over an index with other content and the current data hash); written for other data (built by the real code through the asset seam); other hash; meta.json missing / empty / {} / [] / garbage / every proper prefix of the valid bytes / 18 well-formed JSON documents of the wrong shape or type (null, a number, a list, `version` a number / list / object, a numeric or null hash, a missing or duplicated key, keys in another case, extra fields, other whitespace and key order); index directory missing under a current meta.json; index directory without tantivy's own meta.json. Each prior state x two crash-free starts (family start). Crash enumeration (family crash): prior state x every crash point N = 1..N_max of the real start under the LD_PRELOAD shim (process SIGKILLed before its N-th file-system mutation; quick: absent, other-data, index-missing and index-without-tantivy-meta priors, every point; thorough: eight priors, every point, each write also torn after half and after all-but-one byte), then: meta.json current => index complete (opened independently with tantivy), then two crash-free starts that must answer the probe set exactly like Db::in_memory(). Thorough adds two-crash histories: from the absent prior every pair (n1, n2) with n1 <= 130 and n2 <= 140 (a start performs about 110-125 mutations), from the other-data prior every second n1 and n2; after the second kill the same two oracles apply. Non-trivial = the start performed at least one mutation before it was killed / a prior state other than `current`; distinct = distinct (prior, N, torn)".into()
     }
     fn assumptions(&self) -> Vec<String> {
         vec![
@@ -325,9 +328,16 @@ impl Prop for C15 {
             }
         }
         if tier == Tier::Thorough {
-            for n1 in (5..=NCAP).step_by(10) {
-                for n2 in [1usize, 2, 3, 5, 8, 13, 21, 34, 55, 89, 144, 233, 377, 450, 520] {
+            // every pair of crash points: a start killed at n1, the next start killed at n2 (a start
+            // performs about 110-125 mutations; points beyond the last one are counted, not judged)
+            for n1 in 1..=DOUBLE_N1 {
+                for n2 in 1..=DOUBLE_N2 {
                     sink(Case::with("double-crash", format!("prior=absent crash_at={n1} then crash_at={n2}"), serde_json::json!({"prior": "absent", "n": n1, "n2": n2, "torn": 0})));
+                }
+            }
+            for n1 in (1..=DOUBLE_N1).step_by(2) {
+                for n2 in (1..=DOUBLE_N2).step_by(2) {
+                    sink(Case::with("double-crash", format!("prior=other-data crash_at={n1} then crash_at={n2}"), serde_json::json!({"prior": "other-data", "n": n1, "n2": n2, "torn": 0})));
                 }
             }
         }
@@ -418,7 +428,7 @@ impl Prop for C15 {
         fw::pass(nontrivial, fw::hash_str(prior))
     }
     fn bounds(&self, tier: Tier) -> serde_json::Value {
-        serde_json::json!({"crash_points_cap": NCAP, "prior_states": PRIORS.len() + 80 + META_SHAPES.len(), "crash_priors": tier.pick(4, 8), "torn_variants": tier.pick(0, 2), "second_crash": tier == Tier::Thorough})
+        serde_json::json!({"crash_points_cap": NCAP, "prior_states": PRIORS.len() + 80 + META_SHAPES.len(), "crash_priors": tier.pick(4, 8), "torn_variants": tier.pick(0, 2), "second_crash": tier == Tier::Thorough, "two_crash_pairs": if tier == Tier::Thorough { DOUBLE_N1 * DOUBLE_N2 + (DOUBLE_N1 / 2) * (DOUBLE_N2 / 2) } else { 0 }})
     }
 }
 
